@@ -11,14 +11,14 @@ pub struct ValReg {
     pub own_drops: [u16; MAX_TAGS],
     pub clones: [u16; MAX_TAGS],
     /// tags dropped inside library calls since the last drain
-    pub recent: [u16; 64],
+    pub recent: [u16; 256],
     pub nrecent: usize,
     pub overflow: bool,
 }
 
 thread_local! {
     static REG: RefCell<ValReg> = const { RefCell::new(ValReg {
-        lib_drops: [0; MAX_TAGS], own_drops: [0; MAX_TAGS], clones: [0; MAX_TAGS], recent: [0; 64], nrecent: 0, overflow: false }) };
+        lib_drops: [0; MAX_TAGS], own_drops: [0; MAX_TAGS], clones: [0; MAX_TAGS], recent: [0; 256], nrecent: 0, overflow: false }) };
     static IN_LIB: std::cell::Cell<bool> = const { std::cell::Cell::new(false) };
 }
 
@@ -52,7 +52,7 @@ impl Drop for Val {
             let t = self.tag as usize % MAX_TAGS;
             if in_lib {
                 r.lib_drops[t] += 1;
-                if r.nrecent < 64 {
+                if r.nrecent < 256 {
                     let n = r.nrecent;
                     r.recent[n] = t as u16;
                     r.nrecent += 1;
@@ -103,4 +103,59 @@ pub fn counts(tag: u32) -> (u16, u16, u16) {
         let t = tag as usize % MAX_TAGS;
         (r.lib_drops[t], r.own_drops[t], r.clones[t])
     })
+}
+
+/// What the mpmc world needs from a channel payload type.
+pub trait Payload: 'static {
+    /// zero-sized: values carry no identity, only their number (and drops) can be checked
+    const ZST: bool;
+    fn make(tag: u32) -> Self;
+    fn tag(&self) -> Option<u32>;
+}
+
+impl Payload for Val {
+    const ZST: bool = false;
+    fn make(tag: u32) -> Val {
+        Val::new(tag)
+    }
+    fn tag(&self) -> Option<u32> {
+        Some(self.tag)
+    }
+}
+
+/// A zero-sized payload with a destructor (tick / token channels; `VecDeque<ZST>` reports
+/// capacity `usize::MAX`, `MaybeUninit<[ZST; N]>` occupies no memory). Drops inside library
+/// calls are recorded under tag 0: only their number is meaningful.
+#[derive(Debug, PartialEq, Eq)]
+pub struct Zst;
+
+impl Drop for Zst {
+    fn drop(&mut self) {
+        let in_lib = IN_LIB.with(|f| f.get());
+        REG.with(|r| {
+            let mut r = r.borrow_mut();
+            if in_lib {
+                r.lib_drops[0] += 1;
+                if r.nrecent < 256 {
+                    let n = r.nrecent;
+                    r.recent[n] = 0;
+                    r.nrecent += 1;
+                } else {
+                    r.overflow = true;
+                }
+            } else {
+                r.own_drops[0] += 1;
+            }
+        });
+    }
+}
+
+impl Payload for Zst {
+    const ZST: bool = true;
+    fn make(_tag: u32) -> Zst {
+        Zst
+    }
+    fn tag(&self) -> Option<u32> {
+        None
+    }
 }
